@@ -386,6 +386,33 @@ def special_member_finders(ctx):
         ok = G.gated(cf, x, G.edges_where(cf, exists))
         ctx.ob("R10.3", "check_for_constructor|%s|first-parameter-exists" % flag, ok, cf.loc(x), "%s is set only when the member has a first parameter" % flag)
         if is_ctor:
+            # ... and then only if the SECOND parameter has a default (defaults are trailing, so all further ones have)
+            def second_defaulted(atom, truth):
+                c = G.cmp_atom(atom)
+                if not c:
+                    return False
+                op, a, b = c
+                if not truth:
+                    op = G.NEG[op]
+                for u, v in ((a, b), (b, a)):
+                    uu = strip_casts(peel(u)) if u is not None else None
+                    if uu is None or uu.get("k") != "mem" or not (uu.get("n") or "").endswith("CPPInstance::_initializer"):
+                        continue
+                    if v is None or (strip_casts(v) or {}).get("k") != "nullp" or op != "!=":
+                        continue
+                    base = strip_casts(peel(uu.get("b")))
+                    idx = None
+                    if base is not None and base.get("k") == "call" and callee_short(base) == "operator[]":
+                        args = base.get("a", [])
+                        vec = base.get("this") if "this" in base else (args[0] if args else None)
+                        ix = args[-1] if args else None
+                        if params_vec(vec) is not None and ix is not None:
+                            idx = const_int(ix)
+                    return idx == 1
+                return False
+            rest = G.gated(cf, x, G.edges_where(cf, G.any_of(exactly_one, second_defaulted)))
+            ctx.ob("R10.3", "check_for_constructor|%s|further-parameters-defaulted" % flag, rest, cf.loc(x),
+                   "%s is set only for a one-parameter member or one whose parameter [1] has a default value%s" % (flag, "" if rest else " - NOT: the test reads another parameter (or none)"))
             only_one = G.gated(cf, x, G.edges_where(cf, exactly_one))
             ctx.ob("R10.3", "check_for_constructor|%s|defaulted-extra-parameters-allowed" % flag, not only_one, cf.loc(x),
                    "X(const X&, int = 0) is a copy constructor too: %s" % ("the flag is NOT restricted to one-parameter members" if not only_one else "the flag is set only behind `size() == 1`, so such a constructor is missed and an implicit one is synthesised next to it"))
